@@ -60,6 +60,7 @@ type Opts struct {
 	StructElem bool // []struct / [2]struct / map[string]struct
 	NamedColl  bool // NStrs, NMap
 	Twins      bool // sibling struct fields whose types differ only in skipped fields
+	DeepPtrs   bool // user pointers to nil-able things: *[]T, *map[K]V, **T
 }
 
 // AllOpts enables everything C01 quantifies over.
@@ -102,6 +103,16 @@ func leafType(r *coqfmt.Rng, o Opts) reflect.Type {
 				return tTUv
 			}
 		case 8:
+			if o.UserPtrs && o.DeepPtrs && r.Chance(1, 3) {
+				switch r.Intn(3) {
+				case 0:
+					return reflect.PtrTo(reflect.SliceOf(basic(r)))
+				case 1:
+					return reflect.PtrTo(reflect.MapOf(reflect.TypeOf(""), basic(r)))
+				default:
+					return reflect.PtrTo(reflect.PtrTo(basic(r)))
+				}
+			}
 			if o.UserPtrs {
 				if o.TextU && r.Chance(1, 4) {
 					return reflect.PtrTo(tTUp)
